@@ -1371,4 +1371,88 @@ theorem compileBody_sem (body : Rep) (c c' : CState) (hw : ∀ g ∈ seqGoals bo
   obtain ⟨ops, hc, hp, hn, hr⟩ := goals_sem (seqGoals body) (emit c .enter) c' hw h
   exact ⟨ops, by simp [hc], by simpa using hp, by simpa using hn, hr⟩
 
+/-! ## helpers for running the VM on concrete code by rewriting (used by the non-vacuity examples;
+    `exec` is defined by well-founded recursion and does not reduce in the kernel) -/
+
+/-- the environment a finished unification returns -/
+def uni (env : Env) (a b : Term) : Env :=
+  match unify inner false env a b with
+  | some (e, _) => e
+  | none => env
+
+theorem unifyThen_ok {env : Env} {a b : Term} {m : MS} {X : Env → Option (Pr × MS)}
+    (h : (unify inner false env a b).map (·.2) = some .ok) : unifyThen env a b m X = X (uni env a b) := by
+  unfold unifyThen uni
+  cases hu : unify inner false env a b with
+  | none => simp [hu] at h
+  | some p =>
+    obtain ⟨e, r⟩ := p
+    simp only [hu, Option.map_some, Option.some.injEq] at h
+    subst h
+    rfl
+
+theorem unifyThen_clash {env : Env} {a b : Term} {m : MS} {X : Env → Option (Pr × MS)}
+    (h : (unify inner false env a b).map (·.2) = some .clash) : unifyThen env a b m X = some (failP, m) := by
+  unfold unifyThen
+  cases hu : unify inner false env a b with
+  | none => simp [hu] at h
+  | some p =>
+    obtain ⟨e, r⟩ := p
+    simp only [hu, Option.map_some, Option.some.injEq] at h
+    subst h
+    rfl
+
+theorem exec_getVar' (n : Nat) (pc : List Op) (vars : List Nat) (k : Cont) (astack : List Frame)
+    (env : Env) (cp : Nat) (m : MS) (i : Nat) (a : Term) (rest : List Term) (h : i < vars.length) :
+    exec (n + 1) (.getVar i :: pc) vars k (a :: rest) astack env cp m =
+      unifyThen env a (.var (vars.getD i 0)) m (fun env' => exec n pc vars k rest astack env' cp m) :=
+  exec_getVar n pc vars k astack env cp m i _ a rest (by simp [List.getD, List.getElem?_eq_getElem h])
+
+theorem freshL_zero (N : Nat) : freshL N 0 = [] := rfl
+
+theorem freshL_succ (N n : Nat) : freshL N (n + 1) = N :: freshL (N + 1) n := by
+  simp only [freshL, List.range_succ_eq_map, List.map_cons, List.map_map, Nat.zero_add]
+  congr 1
+  apply List.map_congr_left
+  intro i _
+  simp only [Function.comp]
+  omega
+
+mutual
+  /-- decidable form of `VarsLt` -/
+  def varsLtB (N : Nat) : Term → Bool
+    | .var v => decide (v < N)
+    | .app _ as => argsLtB N as
+    | _ => true
+  def argsLtB (N : Nat) : Args → Bool
+    | .nil => true
+    | .cons t ts => varsLtB N t && argsLtB N ts
+end
+
+mutual
+  theorem varsLt_of_check (N : Nat) : ∀ t : Term, varsLtB N t = true → ∀ v, t.hasVar v = true → v < N
+    | .var w, h, v, hv => by
+      simp only [Term.hasVar, beq_iff_eq] at hv
+      simp only [varsLtB, decide_eq_true_eq] at h
+      omega
+    | .app _ as, h, v, hv => argsLt_of_check N as (by simpa [varsLtB] using h) v (by simpa [Term.hasVar] using hv)
+    | .atom _, _, _, hv => by simp [Term.hasVar] at hv
+    | .int _, _, _, hv => by simp [Term.hasVar] at hv
+    | .flt _, _, _, hv => by simp [Term.hasVar] at hv
+    | .str _, _, _, hv => by simp [Term.hasVar] at hv
+  theorem argsLt_of_check (N : Nat) : ∀ as : Args, argsLtB N as = true → ∀ v, as.hasVar v = true → v < N
+    | .nil, _, _, hv => by simp [Args.hasVar] at hv
+    | .cons t ts, h, v, hv => by
+      simp only [argsLtB, Bool.and_eq_true] at h
+      simp only [Args.hasVar, Bool.or_eq_true] at hv
+      rcases hv with hv | hv
+      · exact varsLt_of_check N t h.1 v hv
+      · exact argsLt_of_check N ts h.2 v hv
+end
+
+/-- the freshness hypothesis on call arguments, from a decidable check -/
+theorem tbelow_of_check {N : Nat} {args : List Term} (h : ∀ a ∈ args, varsLtB N a = true) :
+    ∀ a ∈ args, TBelow N a :=
+  fun a ha => TBelow.of_vars (varsLt_of_check N a (h a ha))
+
 end PrologVerif.Activation
